@@ -69,6 +69,7 @@ type Runner struct {
 	// StaleDelete: some releaseByHandle had its block compare-and-delete answered
 	// NotFound and went on to decrement the handle (known defect, see known_findings).
 	StaleDelete bool
+	StalePairs  map[[2]int]bool           // (handle id, block id) whose count went through that path
 	lastRead    map[int]map[string]string // tid -> block path -> value last read
 
 	// property hooks
@@ -229,7 +230,7 @@ func (r *Runner) doNew(p map[string]string) {
 	r.Sc = NewSched(e.S)
 	r.Sc.Static = IsStaticPath
 	r.Ctx, r.Res, r.ended, r.Faulted, r.Params = map[int]*ThreadCtx{}, map[int]*OpResult{}, map[int]bool{}, false, p
-	r.StaleDelete, r.lastRead = false, nil
+	r.StaleDelete, r.StalePairs, r.lastRead = false, nil, nil
 	var sizes []int
 	for _, b := range e.Blocks {
 		ones, bits := b.Mask.Size()
@@ -237,7 +238,7 @@ func (r *Runner) doNew(p map[string]string) {
 	}
 	keys := make([]string, 0, len(p))
 	for k := range p {
-		if k != "nb" && k != "bsz" && k != "rev0" {
+		if k != "nb" && k != "bsz" && k != "rev0" && k != "bbase" && k != "bpool" && k != "rrange" {
 			keys = append(keys, k)
 		}
 	}
@@ -246,7 +247,33 @@ func (r *Runner) doNew(p map[string]string) {
 	for _, k := range keys {
 		line += " " + k + "=" + p[k]
 	}
-	line += fmt.Sprintf(" nb=%d bsz=%s rev0=%d", len(e.Blocks), joinInts(sizes), e.S.Rev())
+	// integer view of the IPv4 world for the models that do CIDR arithmetic themselves (C20):
+	// block base addresses, pool of each block, reservation ranges start:len
+	var bases, bpool []int
+	for i, b := range e.Blocks {
+		base := 0
+		if ip4 := b.IP.To4(); ip4 != nil {
+			base = int(ip4[0])<<24 | int(ip4[1])<<16 | int(ip4[2])<<8 | int(ip4[3])
+		}
+		bases = append(bases, base)
+		bpool = append(bpool, e.PoolOf[i])
+	}
+	var rr []string
+	for _, rs := range e.Resv {
+		for _, c := range rs.Spec.ReservedCIDRs {
+			if _, cn, err := parseCIDROrIP(c); err == nil {
+				if ip4 := cn.IP.To4(); ip4 != nil {
+					ones, bits := cn.Mask.Size()
+					rr = append(rr, fmt.Sprintf("%d:%d", int(ip4[0])<<24|int(ip4[1])<<16|int(ip4[2])<<8|int(ip4[3]), 1<<uint(bits-ones)))
+				}
+			}
+		}
+	}
+	rrs := "-"
+	if len(rr) > 0 {
+		rrs = strings.Join(rr, ",")
+	}
+	line += fmt.Sprintf(" nb=%d bsz=%s bbase=%s bpool=%s rrange=%s rev0=%d", len(e.Blocks), joinInts(sizes), joinInts(bases), joinInts(bpool), rrs, e.S.Rev())
 	r.H.Op(line, "ok")
 }
 
@@ -459,8 +486,17 @@ func (r *Runner) doStep(tid int, fault string) {
 		if st.Verb == VDelete && st.Outcome == ONotFound && ctx != nil && ctx.Op == "releasebyhandle" {
 			if v, ok := r.lastRead[tid][st.Path]; ok {
 				n := r.Env.AbsBlockOf(v).LiveCount(ctx.Handle)
-				op = strings.Replace(op, "ev=-", fmt.Sprintf("ev=stale h=%d n=%d", ctx.Handle, n), 1)
+				// After repair e889066 the client re-reads instead of decrementing by this stale
+				// count n; the event is only remembered so that a handle violation about this
+				// (handle, block) pair is labelled (regression guard).
+				_ = n
 				r.StaleDelete = true
+				if r.StalePairs == nil {
+					r.StalePairs = map[[2]int]bool{}
+				}
+				if bid, ok := r.Env.BlockOf[model.IPNetFromPrefix(st.Key.(model.BlockKey).CIDR).String()]; ok {
+					r.StalePairs[[2]int{ctx.Handle, bid}] = true
+				}
 				r.H.Count("stale-delete")
 			}
 		}
